@@ -1,5 +1,6 @@
 """C07 - pickle steps = in-scope background steps followed by the scenario's own steps."""
 from . import compiler_rules as cr, parser_rules as pr
+from . import misc_rules as ms
 from . import shape_rules as sh
 
 META = {
@@ -20,3 +21,5 @@ def run(rep):
     cr.rule_input(rep, "C07.isolation")
     # which background is in scope is decided by the nesting the parser reports
     pr.rule_grammar(rep, "C07.nesting")
+    # no hidden state: what the property promises for one use must hold for every later use as well
+    ms.rule_stateless(rep, "C07")
